@@ -1764,6 +1764,7 @@ impl UntypedPattern {
             PatternEnum::NumUnsigned(n, suffix) => {
                 if let Some(ty) = &ty {
                     expect_num_type(ty, meta)?;
+                    expect_unsigned_suffix(ty, *suffix, meta)?;
                     PatternEnum::NumUnsigned(*n, *suffix)
                 } else {
                     return Err(vec![None]);
@@ -1772,6 +1773,7 @@ impl UntypedPattern {
             PatternEnum::NumSigned(n, suffix) => {
                 if let Some(ty) = &ty {
                     expect_signed_num_type(ty, meta)?;
+                    expect_signed_suffix(ty, *suffix, meta)?;
                     PatternEnum::NumSigned(*n, *suffix)
                 } else {
                     return Err(vec![None]);
@@ -1780,6 +1782,7 @@ impl UntypedPattern {
             PatternEnum::UnsignedInclusiveRange(from, to, suffix) => {
                 if let Some(ty) = &ty {
                     expect_num_type(ty, meta)?;
+                    expect_unsigned_suffix(ty, *suffix, meta)?;
                     PatternEnum::UnsignedInclusiveRange(*from, *to, *suffix)
                 } else {
                     return Err(vec![None]);
@@ -1788,6 +1791,7 @@ impl UntypedPattern {
             PatternEnum::SignedInclusiveRange(from, to, suffix) => {
                 if let Some(ty) = &ty {
                     expect_signed_num_type(ty, meta)?;
+                    expect_signed_suffix(ty, *suffix, meta)?;
                     PatternEnum::SignedInclusiveRange(*from, *to, *suffix)
                 } else {
                     return Err(vec![None]);
@@ -2499,6 +2503,38 @@ fn expect_num_type(ty: &Type, meta: MetaInfo) -> Result<(), TypeErrors> {
             meta,
         ))]),
     }
+}
+
+/// A number pattern with a type suffix only matches values of exactly that type.
+fn expect_unsigned_suffix(
+    ty: &Type,
+    suffix: UnsignedNumType,
+    meta: MetaInfo,
+) -> Result<(), TypeErrors> {
+    if suffix == UnsignedNumType::Unspecified || ty == &Type::Unsigned(suffix) {
+        return Ok(());
+    }
+    let e = TypeErrorEnum::UnexpectedType {
+        expected: ty.clone(),
+        actual: Type::Unsigned(suffix),
+    };
+    Err(vec![Some(TypeError::new(e, meta))])
+}
+
+/// A number pattern with a type suffix only matches values of exactly that type.
+fn expect_signed_suffix(
+    ty: &Type,
+    suffix: SignedNumType,
+    meta: MetaInfo,
+) -> Result<(), TypeErrors> {
+    if suffix == SignedNumType::Unspecified || ty == &Type::Signed(suffix) {
+        return Ok(());
+    }
+    let e = TypeErrorEnum::UnexpectedType {
+        expected: ty.clone(),
+        actual: Type::Signed(suffix),
+    };
+    Err(vec![Some(TypeError::new(e, meta))])
 }
 
 fn expect_signed_num_type(ty: &Type, meta: MetaInfo) -> Result<(), TypeErrors> {
